@@ -270,6 +270,13 @@ def run(rep, prog, tier):
                       comp in (["%s.pop('compression', CompressionAlgorithm.ZIP)" % kw], ["%s.get('compression', CompressionAlgorithm.ZIP)" % kw]),
                       'C20.6', 'PGPMessage.new', 'contents %s compression %s' % (body, comp),
                       'contents are the caller\'s message as octets; compression is the caller\'s choice (default ZIP)', where=nw.where)
+            # the packet owns its octets: text_to_bytes hands a bytes / bytearray argument back as it is, so what is stored must be a
+            # copy (bytearray(x) / bytes(x) / x[:] / copy.copy(x)) - otherwise the message changes when the caller's buffer does
+            vals = [V for p_, v_, l_, V in s.stores if p_ == '%s._contents' % L]
+            fresh = bool(vals) and (isinstance(vals[-1], Bytes) or re.match(r'^(copy\.copy|copy\.deepcopy)\(', body or '') is not None or (body or '').endswith('.copy()'))
+            rep.check(fresh, 'C20.6', 'PGPMessage.new', 'contents stored as %s (%s)' % (body, type(vals[-1]).__name__ if vals else None),
+                      'the literal packet keeps its own copy of the caller\'s octets (a bytearray passed in is returned as it is by text_to_bytes: '
+                      'stored by reference, the message would change under the caller)', where=nw.where, expected='bytearray(<octets>)', found=body)
             rep.check(any(c[0] == '%s.update_hlen' % L for c in s.calls) and '%s.mtime' % L in st and '%s.format' % L in st, 'C20.6', 'PGPMessage.new',
                       'time, format set; update_hlen', 'the literal packet gets its time and format, and its length is recomputed', where=nw.where)
             break
